@@ -274,10 +274,9 @@ def stageChange (r : Req) (ins : List Utxo) (s : FeeState) : Except Err ChangeSt
   else .ok { outs := (changeAmounts r s).map Int.toNat, nChange := nChangeOf r, fpk := fpkInChange s,
              vsize := if r.nChangeReq = 0 then (estimateSize r.txwt1 (ins.map fun _ => r.kind) r.outLens (nChangeOf r)).2 else s.vsize }
 
-def fpkFinal (s : FeeState) (c : ChangeState) : Int :=
-  match c.fpk with
-  | some v => if v == 0 then rateOf s.fee c.vsize else v
-  | none => rateOf s.fee c.vsize
+/-- the fee rate the limits apply to: the rate the final fee pays on the final size estimate (since the repair of F88; before, a rate
+estimated earlier was kept although the fee had absorbed a shortfall or a dust-sized change) -/
+def fpkFinal (s : FeeState) (c : ChangeState) : Int := rateOf s.fee c.vsize
 
 /-- the final guards: the transaction balances, the fee rate is inside the network's limits -/
 def finalize (r : Req) (ins : List Utxo) (s : FeeState) (c : ChangeState) : Except Err Created :=
